@@ -8,7 +8,9 @@ RULE = ("one case = geometry file (plain/gzip, 0-40 rows, linestrings of 0-6 gri
         "duplicates, LF or CRLF, terminated or not, plain/gzip; the model splits the text like BufRead::lines, the "
         "specification says row i = vertex i), request, 0-3 routes of 0-30 edges and 0-3 trees of 0-60 branches (or a failed search), run "
         "through the real plugin builders and apply_output_processing once per chain: [traversal(f,f)] for each of the "
-        "five formats, [summary], [uuid], one random full chain, plus every plugin called directly on a failed search; "
+        "five formats, [summary], [uuid], one random full chain, plus every plugin called directly on a failed search, plus the number of entries per "
+        "tree under each of the five formats (S: equal to the number of branches under every format); costs include zero, "
+        "negative zero, +-1e-10 and cancelling access/traversal pairs (zero-cost root branch of edge-oriented trees); "
         "the responses are re-parsed with serde_json/geojson/wkt/wkb into id lists, records, coordinate lists (trees as "
         "sorted multisets) and compared with the model's (M) and with the specification's (S: map/flat_map/nth over the "
         "raw route, tree and tables); deterministic boundary families first (route lengths 1..30 with descending ids, "
@@ -44,7 +46,7 @@ def run(chk):
         chk.coverage["streams"]["corpus"] = {"cases": rc.stats.get("cases", 0),
                                              "rule": "corpus/C20/witnesses.json replayed (same comparison as the main stream)"}
         vf.compare(chk, rc, classify=classify, binpath=binp, stream_label="corpus")
-    n = 600 if chk.tier == "quick" else 6000
+    n = 650 if chk.tier == "quick" else 6000
     extra = [] if chk.tier == "quick" else ["--thorough"]
     r = vf.run_stream(binp, "output", n, chk.seed, os.path.join(chk.outdir, "output"), extra=extra, replay=chk.replay)
     chk.add_stream(r, RULE)
